@@ -573,7 +573,10 @@ def check_bboxes(ctx, cases, lines, oh, rng, findings):
             mem = region_mem(reg, local_point(p, tra))
             if bbox_nonnull(b["Mint"]) and in_bbox(b["Mint"], p) and not mem:
                 sph = any(tag in ("s", "sc") for _, _, tag, _ in b["nodes"])
-                findings.append(("bbox-interior" + ("/sphere" if sph else ""), reg, tol, tra, l,
+                ecyl = reg["type"] == "ellipsoid" and any(
+                    tag in ("cx", "cy", "cz", "cxc", "cyc", "czc") for _, _, tag, _ in b["nodes"])
+                findings.append(("bbox-interior" + ("/sphere" if sph else "/ellipsoid-cyl" if ecyl else ""),
+                                 reg, tol, tra, l,
                                  {"point": p, "interior": b["Mint"]}))
             if mem and not in_bbox(b["Mext"], p):
                 findings.append(("bbox-exterior", reg, tol, tra, l, {"point": p, "exterior": b["Mext"]}))
@@ -758,9 +761,30 @@ def run_e2e(ctx, exe, sc, n, npts, findings, stats):
             exp = "x" if not inworld else ("m" if object_mem(o, p) else "b")
             n_eval += 1
             if chars[j] != exp:
-                findings.append(("e2e", o, tol, None, l, {"point": p, "expected": exp, "located": chars[j],
-                                                          "object": object_words_readable(o)}))
+                kind = "e2e/cone-merge" if cones_soft_equal(surfs[i], tol) else "e2e"
+                findings.append((kind, o, tol, None, l, {"point": p, "expected": exp, "located": chars[j],
+                                                         "object": object_words_readable(o)}))
     return len(lines), n_eval
+
+
+def cones_soft_equal(surfs, tol):
+    """two DIFFERENT cone surfaces of the object that SoftSurfaceEqual{tol} identifies (it compares
+    the tangents with an absolute tolerance): LocalSurfaceInserter merges them into one surface"""
+    ks = [(tag, d) for tag, d in surfs if tag in ("kx", "ky", "kz")]
+    for a in range(len(ks)):
+        for b in range(a + 1, len(ks)):
+            (ta, da), (tb, db) = ks[a], ks[b]
+            if ta != tb or da == db:
+                continue
+            sa, sb = math.sqrt(da[3]), math.sqrt(db[3])
+            if not abs(sa - sb) < max(tol, tol * max(sa, sb)):
+                continue
+            na = math.sqrt(sum(v * v for v in da[:3]))
+            nb = math.sqrt(sum(v * v for v in db[:3]))
+            dist = math.sqrt(sum((da[i] - db[i]) ** 2 for i in range(3)))
+            if dist < max(tol, tol * max(na, nb)):
+                return True
+    return False
 
 
 def object_words_readable(o):
@@ -782,7 +806,7 @@ def classify(kind, reg, info):
         return "bbox-interior-unsound:" + t
     if kind == "emission/ppiped-y":
         return "ppiped-y-extent-cos-alpha"
-    if kind == "emission/ellipsoid-cyl":
+    if kind in ("emission/ellipsoid-cyl", "bbox-interior/ellipsoid-cyl"):
         return "ellipsoid-simplified-to-cylinder"
     if kind == "bbox-exterior":
         return "bbox-exterior-unsound:" + t
@@ -792,6 +816,8 @@ def classify(kind, reg, info):
         return "oracle-disagrees-with-lean-spec:" + t
     if kind == "e2e-crash":
         return "e2e-crash"
+    if kind == "e2e/cone-merge":
+        return "cone-softequal-merges-distinct-cones"
     if kind == "e2e":
         return "e2e-mislocated:" + e2e_shape_key(reg)
     return kind + ":" + t
@@ -802,6 +828,27 @@ def e2e_shape_key(o):
     if "ppiped" in ts:
         return "ppiped"
     return o["k"] + ":" + "+".join(ts)
+
+
+def run_corpus(exe, model):
+    """corpus/C09b/*.ops: past disagreements / defect witnesses, exact diff first"""
+    import glob
+    import os
+    lines = []
+    for f in sorted(glob.glob(os.path.join(vlib.CORPUS, "C09b", "*.ops"))):
+        lines += [l.strip() for l in open(f) if l.strip() and not l.startswith("#")]
+    if not lines:
+        return 0, []
+    _, oh = vlib.run_lines([exe], lines)
+    div = []
+    if model:
+        _, om = vlib.run_lines([model], lines)
+        for l, a, b in zip(lines, oh, om):
+            if l.split()[0] in ("e2e", "sincos"):
+                continue
+            if not (a == b or (is_crash(a) and b == "diverged")):
+                div.append({"op": l, "impl": a[:600], "model": b[:600]})
+    return len(lines), div
 
 
 def run_part(ctx):
@@ -824,17 +871,18 @@ def run_part(ctx):
     sc = SinCos(exe)
     stats, findings = {}, []
     boost = 3 if broken else 1
-    nb = (1500 if quick else 20000) * boost
+    n_corpus, div_corpus = run_corpus(exe, model)
+    nb = (6000 if quick else 120000) * boost
     lines, oh, cases, div_build = run_build_diff(ctx, exe, model, sc, nb, stats, findings)
     n_bb = check_bboxes(ctx, cases, lines, oh, ctx.rng, findings)
-    sub = list(zip(cases, lines, oh))[: (400 if quick else 4000) * boost]
+    sub = list(zip(cases, lines, oh))[: (1500 if quick else 20000) * boost]
     n_mem, n_mem_eval, div_mem = run_member(
         ctx, exe, model, sc, [c for c, _, _ in sub], [l for _, l, _ in sub], [o for _, _, o in sub],
         ctx.rng, findings, 24 if quick else 40)
-    n_simp, div_simp, simp_crash = run_simplify_diff(ctx, exe, model, (3000 if quick else 60000) * boost)
-    n_e2e, n_e2e_eval = run_e2e(ctx, exe, sc, (60 if quick else 700) * boost, 40 if quick else 80,
+    n_simp, div_simp, simp_crash = run_simplify_diff(ctx, exe, model, (20000 if quick else 300000) * boost)
+    n_e2e, n_e2e_eval = run_e2e(ctx, exe, sc, (300 if quick else 4000) * boost, 40 if quick else 80,
                                 findings, stats)
-    diverged = div_build + div_mem + div_simp
+    diverged = div_corpus + div_build + div_mem + div_simp
     if diverged:
         broken.append(f"correspondence: model and implementation differ on {len(diverged)} ops "
                       f"(build {len(div_build)}, member {len(div_mem)}, simplify {len(div_simp)}); "
@@ -868,7 +916,7 @@ def run_part(ctx):
         "Lean model (GenPrism only through the end-to-end oracle)",
     ]
     cov.update({
-        "solids_build_ops": len(lines), "solids_member_ops": n_mem, "solids_member_points": n_mem_eval,
+        "solids_corpus_ops": n_corpus, "solids_build_ops": len(lines), "solids_member_ops": n_mem, "solids_member_points": n_mem_eval,
         "solids_bbox_points": n_bb, "solids_simplify_ops": n_simp, "solids_simplify_crashes": simp_crash,
         "solids_e2e_geometries": n_e2e, "solids_e2e_points": n_e2e_eval,
         "solids_op_mix": dict(sorted(stats.items())), "solids_diverging_ops": len(diverged),
